@@ -76,10 +76,15 @@ def form_params(name):
     if name == "sqrt":
         return st.tuples(n(-4, 4))
     if name == "tang_toennies":
-        return st.tuples(n(1, 100), fl(1, 3), n(1, 10), n(10, 100), n(100, 1e3))
+        full = st.tuples(n(1, 100), fl(1, 3), n(1, 10), n(10, 100), n(100, 1e3))
+        # any of the dispersion coefficients may be absent (zero) or of either sign
+        gaps = st.tuples(full, st.sampled_from([(0, 1, 1), (0, 0, 1), (0, 1, 0), (1, 0, 1), (1, 0, 0), (1, 1, 0), (0, 0, 0), (1, -1, 1)])).map(
+            lambda t: t[0][:2] + tuple(c * k for c, k in zip(t[0][2:], t[1])))
+        return st.one_of(full, full, gaps)
     if name == "zbl":
-        return st.tuples(st.one_of(st.integers(1, 92), st.integers(1, 92).map(float)),
-                         st.one_of(st.integers(1, 92), st.integers(1, 92).map(float)))
+        # whole atomic numbers typed as ints or floats, and fractional (effective) charges
+        z = st.one_of(st.integers(1, 92), st.integers(1, 92).map(float), fl(0.3, 92.0, sig=3))
+        return st.tuples(z, z)
     if name == "zero":
         return st.just(())
     if name == "buck4":
